@@ -500,6 +500,21 @@ fn main() {
                     format!("{{\"frames\":{},\"empty_chunks\":{},\"oversized\":{},\"total\":{},\"encoded\":{}}}", frames, empty, over, total, target)
                 })
             }
+            // handles <peer handle for A> <peer handle for B>: links A and B attached (our handles 0 and 1),
+            // A detached in both directions, then C attached: which handle does C get, and is the
+            // name "B" still refused?
+            "handles" => {
+                let mut s = VSession::new(SessionState::Mapped, 0, 100, 100);
+                let a = s.allocate_receiver_link("A").unwrap();
+                let b = s.allocate_receiver_link("B").unwrap();
+                let ra = s.on_incoming_attach("B", nums[1] as u32);
+                let rb = s.on_incoming_attach("A", nums[0] as u32);
+                s.on_outgoing_detach(a);
+                let rd = s.on_incoming_detach(nums[0] as u32);
+                let c = s.allocate_receiver_link("C");
+                let b_again = s.allocate_receiver_link("B");
+                format!("{{\"a\":{},\"b\":{},\"attach_ok\":{},\"detach_ok\":{},\"c\":{},\"b_name_reused\":{}}}", a, b, ra == Some(true) && rb == Some(true), rd == Some(true), c.map(|x| x as i64).unwrap_or(-1), b_again.is_ok())
+            }
             // wakeup <pos> <credit>: one waiter with no credit, one grant of <credit> placed
             //   pos 0: before the first poll, 1: at the cfg schedule point (between the failed credit
             //   check and the creation of the wait future), 2: after the first poll returned Pending;
